@@ -385,6 +385,40 @@ pub fn run() -> i32 {
         corpus.into_inner().unwrap().flush().unwrap();
     }
     ctx.note("second_reference_corpus", json!(corpus_path));
+    {
+        let mut t: Vec<crate::purity::Entry> = vec![];
+        let names: [[&'static str; 5]; 2] = [["sign(k1,m1)", "sign_combined(k1,m1)", "sign_ph(k1,m1)", "verify(k1,m1)", "verify_ph(k1,m1)"], ["sign(k2,m2)", "sign_combined(k2,m2)", "sign_ph(k2,m2)", "verify(k2,m2)", "verify_ph(k2,m2)"]];
+        for (i, (sd, m)) in [(sds[2], cval(seed, 3, 70)), (sds[5], cval(seed, 2, 3))].into_iter().enumerate() {
+            let (pk, sk) = sodium::sign_seed_keypair(&sd);
+            let sig = sodium::sign_detached(&m, &sk);
+            let psig = sodium::sign_ph_create(&[&m], &sk);
+            let mm = m.clone();
+            t.push((names[i][0], Box::new(move || {
+                let mut s = [0u8; 64];
+                let _ = crypto_sign_detached(&mut s, &mm, &sk);
+                s.to_vec()
+            })));
+            let mm = m.clone();
+            t.push((names[i][1], Box::new(move || {
+                let mut sm = vec![0u8; mm.len() + 64];
+                let _ = crypto_sign(&mut sm, &mm, &sk);
+                sm
+            })));
+            let mm = m.clone();
+            t.push((names[i][2], Box::new(move || {
+                let mut st = crypto_sign_init();
+                crypto_sign_update(&mut st, &mm);
+                let mut s = [0u8; 64];
+                let _ = crypto_sign_final_create(st, &mut s, &sk);
+                s.to_vec()
+            })));
+            let mm = m.clone();
+            t.push((names[i][3], Box::new(move || vec![dry_verify_pure(&sig, &mm, &pk).map(|b| b as u8).unwrap_or(9), dry_verify_pure(&psig, &mm, &pk).map(|b| b as u8).unwrap_or(9)])));
+            let mm = m.clone();
+            t.push((names[i][4], Box::new(move || vec![dry_verify_ph(&psig, &mm, &pk).map(|b| b as u8).unwrap_or(9), dry_verify_ph(&sig, &mm, &pk).map(|b| b as u8).unwrap_or(9)])));
+        }
+        crate::purity::triples(&mut ctx, "C06", "C06.ed25519", t);
+    }
     ctx.require_outcome("sign==libsodium");
     ctx.require_outcome("both-reject");
     ctx.require_outcome("both-accept");
